@@ -43,6 +43,7 @@ type loopInfo struct {
 	headSt  *State // state after havoc
 	preSt   *State // state before havoc (merged entry edges)
 	phis    []*ssa.Phi
+	mapIns  map[string]bool // map-domain kinds the loop may insert into (anything but delete)
 	kinds   []string // heap kinds written in the loop
 	allHav  bool
 	allocs  bool
@@ -65,6 +66,8 @@ type Gen struct {
 	fn       *ssa.Function
 	topFn    *ssa.Function // the function under contract (fn changes while a callee is inlined)
 	lineTag  string        // appended as a comment to assumption lines (see assume)
+	mrSeen    map[*ssa.Range]string // ghost location of the produced-keys set of a map range
+	mrDom0    map[*ssa.Range]string // domain of the map when the range started
 	key      string
 	con      *Contract
 	decls    []string
@@ -566,6 +569,10 @@ func (g *Gen) oblige(name, kind string, tags []string, guard, formula, desc stri
 			// shifted copies of the skolem index (appends) and permutation images (sort)
 			all := append([]string{}, terms...)
 			for _, t := range terms {
+				// neighbours of the skolem index (an element removed or inserted shifts the rest by one)
+				all = append(all, "(+ "+t+" 1)", "(- "+t+" 1)")
+			}
+			for _, t := range terms {
 				for _, sh := range g.instShifts {
 					all = append(all, "(- "+t+" "+sh+")")
 				}
@@ -590,7 +597,7 @@ func (g *Gen) oblige(name, kind string, tags []string, guard, formula, desc stri
 			for _, l := range g.instantiateContext(all) {
 				sb.WriteString(l + "\n")
 			}
-			goal = sg
+			goal = hintAntecedents(sg, all)
 		}
 	}
 	sb.WriteString("; obligation " + name + ": " + strings.ReplaceAll(desc, "\n", " ") + "\n")
